@@ -170,3 +170,7 @@ pub fn inverse_rle(
         }
     }
 }
+
+#[cfg(any(kani, ruffle_rs_h263_rs_verif))]
+#[path = "/verif/hooks/h263/decoder/cpu/rle.rs"]
+mod verif_hook;
